@@ -152,6 +152,11 @@ class FrozenDict(collections.abc.Mapping):
     def __repr__(self):
         return repr(self._d)
 
+    def __sizeof__(self):
+        # the mapping is the value: without this the memory quota sees a
+        # frozen dictionary as a few dozen bytes whatever it holds
+        return object.__sizeof__(self) + sys.getsizeof(self._d)
+
 
 def memorize(collection, engine):
     if not is_iterator(collection):
